@@ -151,6 +151,7 @@ contract(SOL + "rainfall_partition.py", "rainfall_partition",
              ("C02.rain_partition_sum", "Runoff + Infl == precipitation"),
              ("C02.rain_partition_runoff_bounds", "0 <= Runoff and Runoff <= precipitation"),
              ("C02.rain_partition_zero", "implies(precipitation == 0, Runoff == 0 and Infl == 0)"),
+             ("C03.rain_partition_day_submerged", "DaySubmerged == 0 or DaySubmerged == NewCond_DaySubmerged"),
              ("C02.rain_partition_inhibited", "implies(FieldMngt_SRinhb or (FieldMngt_Bunds and FieldMngt_zBund >= 0.001), Runoff == 0 and Infl == precipitation)"),
          ],
          loops={"L1": dict(invariant=[]), "L2": dict(invariant=[])},
@@ -215,7 +216,7 @@ contract(SOL + "irrigation.py", "irrigation",
              "IrrMngt_MaxIrr >= 0", "IrrMngt_MaxIrrSeason >= 0", "IrrMngt_depth >= 0",
              "implies(IrrMngt_IrrMethod == 2, IrrMngt_IrrInterval >= 1)",
              "implies(growing_season, NewCond_DAP >= 1)",
-             "implies(NewCond_DAP != 1, 1 <= NewCond_GrowthStage and NewCond_GrowthStage <= 4)",
+             "implies(growing_season and NewCond_DAP != 1, 1 <= NewCond_GrowthStage and NewCond_GrowthStage <= 4)",
              "0 <= NewCond_TimeStepCounter and NewCond_TimeStepCounter < n_steps",
              "forall(k, 0, n_steps, IrrMngt_Schedule[k] >= 0)",
              "0 <= NewCond_IrrCum",
@@ -267,7 +268,7 @@ contract(SOL + "infiltration.py", "infiltration",
              "NewCond_SurfaceStorage >= 0", "Irr >= 0", "0 <= IrrMngt_AppEff and IrrMngt_AppEff <= 100", "FieldMngt_zBund >= 0",
              "implies(%s, NewCond_SurfaceStorage <= FieldMngt_zBund)" % _BE,
          ],
-         returns=[("thnew", _PA), ("SS", "Real"), ("DeepPerc", "Real"), ("RunoffTot", "Real"), ("InflOut", "Real"), ("FluxOutR", _PA)],
+         returns=[("thnew", _PA), ("SS", "Real"), ("DeepPerc", "Real"), ("RunoffTot", "Real"), ("InflOut", "Real"), ("FluxOutR", ("Param", "FluxOut"))],
          ensures=[
              ("C01.infiltration_mass", "wsum(prof.dz, thnew, n) + SS + (RunoffTot - Runoff0) + (DeepPerc - DeepPerc0) == "
                                        "old(wsum(prof.dz, NewCond_th, n)) + NewCond_SurfaceStorage + " + _IN),
@@ -318,8 +319,9 @@ contract(SOL + "check_groundwater_table.py", "check_groundwater_table",
              ("C19.cgt_far_table_is_fc", "implies(water_table_presence == 1 and %s, forall(j, 0, n, fcAdj[j] == prof.th_fc[j]))" % _FAR),
              ("C19.cgt_table_in_soil", "implies(water_table_presence == 1, WTinSoil == (prof.zMid[n-1] >= z_gw))"),
              ("C19.cgt_follows_observation", "implies(water_table_presence == 1, zGW == z_gw)"),
-             ("C12.cgt_fresh", "implies(water_table_presence == 1, fresh(fcAdj) and length(fcAdj) == n)"),
-             ("C19.cgt_no_table_passthrough", "implies(water_table_presence == 0, same(fcAdj, NewCond_th_fc_Adj))"),
+             ("C19.cgt_no_table_not_in_soil", "implies(water_table_presence == 0, not WTinSoil)"),
+             ("C12.cgt_len", "implies(water_table_presence == 1, length(fcAdj) == n)"),
+             ("C19.cgt_no_table_passthrough", "implies(water_table_presence == 0, length(fcAdj) == n and forall(j, 0, n, fcAdj[j] == NewCond_th_fc_Adj[j]))"),
          ],
          loops={
              "L1": dict(invariant=[
@@ -428,7 +430,7 @@ contract(SOL + "soil_evaporation.py", "soil_evaporation",
              "Soil_Kex >= 0", "0 <= Soil_fwcc and Soil_fwcc <= 100", "Soil_fevap > 0",
              # one stage-2 sub-step never asks for more than the evaporation layer holds above air-dry (valid_soil; checked for the built-in soils)
              "Soil_Kex * et0 <= ClockStruct_EvapTimeSteps * (" + _REWLB.format(z="Soil_EvapZmin") + " - Soil_REW)",
-             "0 <= NewCond_CCxW and NewCond_CCxW <= 1", "0 <= NewCond_CCadj and NewCond_CCadj <= 1", "0 <= NewCond_CCxAct and NewCond_CCxAct <= 1",
+             "0 <= NewCond_CCxW and NewCond_CCxW <= 1", "0 <= NewCond_CCadj and NewCond_CCadj <= 1",
              "0 <= NewCond_CC", "et0 >= 0",
              "0 <= FieldMngt_fMulch and FieldMngt_fMulch <= 1", "0 <= FieldMngt_MulchPct and FieldMngt_MulchPct <= 100",
              "0 <= IrrMngt_WetSurf and IrrMngt_WetSurf <= 100",
@@ -436,7 +438,7 @@ contract(SOL + "soil_evaporation.py", "soil_evaporation",
              "Soil_EvapZmin <= NewCond_EvapZ and NewCond_EvapZ <= Soil_EvapZmax + 0.001",
              "implies(growing_season, Crop_CalendarType == 1 or Crop_CalendarType == 2)",
          ],
-         returns=[("Epot", "Real"), ("th_out", _PA), ("Stage2", "Bool"), ("Wstage2", "Real"), ("Wsurf", "Real"), ("SS", "Real"), ("EvapZ", "Real"),
+         returns=[("Epot", "Real"), ("th_out", ("Param", "NewCond_th")), ("Stage2", "Bool"), ("Wstage2", "Real"), ("Wsurf", "Real"), ("SS", "Real"), ("EvapZ", "Real"),
                   ("EsAct", "Real"), ("EsPot", "Real")],
          ensures=[
              ("C04.evap_pot_nonneg", "EsPot >= 0 and Epot == EsPot"),
@@ -511,22 +513,30 @@ contract(SOL + "transpiration.py", "transpiration",
              "Soil_zTop >= Soil_Profile.dzsum[0] + 0.005 or (is_int(100 * Soil_zTop) and Soil_zTop >= Soil_Profile.dzsum[0])",
              "InitCond.surface_storage >= 0", "et0 >= 0",
              "0 <= IrrMngt_NetIrrSMT and IrrMngt_NetIrrSMT <= 100", "0 <= IrrMngt_IrrMethod and IrrMngt_IrrMethod <= 5",
-             # crop validity (valid_crop; catalogue obligation) and crop state (canopy_inv, established by canopy_cover)
-             "Crop.Kcb >= 0", "Crop.fage >= 0", "Crop.a_Tr > 0",
-             "0 <= InitCond.ccx_w and InitCond.ccx_w <= 1", "0 <= InitCond.ccx_w_ns and InitCond.ccx_w_ns <= 1",
-             "Crop.Kcb - (" + _AGE.format(a="InitCond.age_days") + " - 5) * (Crop.fage / 100) * InitCond.ccx_w >= 0",
-             "Crop.Kcb - (" + _AGE.format(a="InitCond.age_days_ns") + " - 5) * (Crop.fage / 100) * InitCond.ccx_w_ns >= 0",
-             "CO2.ref_concentration < 550 and CO2.current_concentration - CO2.ref_concentration <= 20 * (550 - CO2.ref_concentration)",
-             "0 <= InitCond.canopy_cover_adj and InitCond.canopy_cover_adj <= 1", "0 <= InitCond.canopy_cover_adj_ns and InitCond.canopy_cover_adj_ns <= 1",
-             "InitCond.canopy_cover >= 0 and InitCond.canopy_cover_ns >= 0",
-             "Crop.TrColdStress == 0 or Crop.TrColdStress == 1", "Crop.GDD_lo < Crop.GDD_up",
-             "Crop.ETadj == 0 or Crop.ETadj == 1",
-             "Crop.LagAer >= 2", "InitCond.day_submerged >= 0",
-             "0 <= InitCond.aer_days and InitCond.aer_days <= Crop.LagAer",
-             "forall(j, 0, n, InitCond.aer_days_comp[j] >= 0)",
-             "forall(k, 0, 4, 0 <= Crop.p_up[k] and Crop.p_up[k] <= 1)", "forall(k, 0, 4, 0 <= Crop.p_lo[k] and Crop.p_lo[k] <= 1)",
-             "forall(k, 0, 3, Crop.fshape_w[k] != 0)", "Crop.p_up[1] < Crop.p_lo[1]",
-             "Crop.SxTop >= 0 and Crop.SxBot >= 0 and InitCond.r_cor >= 0",
+             # crop validity (valid_crop; catalogue obligation) and crop state (canopy_inv, established by canopy_cover): only needed in season
+             "implies(growing_season, Crop.Kcb >= 0)",
+             "implies(growing_season, Crop.fage >= 0)",
+             "implies(growing_season, Crop.a_Tr > 0)",
+             "implies(growing_season, 0 <= InitCond.ccx_w and InitCond.ccx_w <= 1)",
+             "implies(growing_season, 0 <= InitCond.ccx_w_ns and InitCond.ccx_w_ns <= 1)",
+             "implies(growing_season, Crop.Kcb - (" + _AGE.format(a="InitCond.age_days") + " - 5) * (Crop.fage / 100) * InitCond.ccx_w >= 0)",
+             "implies(growing_season, Crop.Kcb - (" + _AGE.format(a="InitCond.age_days_ns") + " - 5) * (Crop.fage / 100) * InitCond.ccx_w_ns >= 0)",
+             "implies(growing_season, CO2.ref_concentration < 550 and CO2.current_concentration - CO2.ref_concentration <= 20 * (550 - CO2.ref_concentration))",
+             "implies(growing_season, 0 <= InitCond.canopy_cover_adj and InitCond.canopy_cover_adj <= 1)",
+             "implies(growing_season, 0 <= InitCond.canopy_cover_adj_ns and InitCond.canopy_cover_adj_ns <= 1)",
+             "implies(growing_season, InitCond.canopy_cover >= 0 and InitCond.canopy_cover_ns >= 0)",
+             "implies(growing_season, Crop.TrColdStress == 0 or Crop.TrColdStress == 1)",
+             "implies(growing_season, Crop.GDD_lo < Crop.GDD_up)",
+             "implies(growing_season, Crop.ETadj == 0 or Crop.ETadj == 1)",
+             "implies(growing_season, Crop.LagAer >= 2)",
+             "implies(growing_season, InitCond.day_submerged >= 0)",
+             "implies(growing_season, 0 <= InitCond.aer_days and InitCond.aer_days <= Crop.LagAer)",
+             "implies(growing_season, forall(j, 0, n, InitCond.aer_days_comp[j] >= 0))",
+             "implies(growing_season, forall(k, 0, 4, 0 <= Crop.p_up[k] and Crop.p_up[k] <= 1))",
+             "implies(growing_season, forall(k, 0, 4, 0 <= Crop.p_lo[k] and Crop.p_lo[k] <= 1))",
+             "implies(growing_season, forall(k, 0, 3, Crop.fshape_w[k] != 0))",
+             "implies(growing_season, Crop.p_up[1] < Crop.p_lo[1])",
+             "implies(growing_season, Crop.SxTop >= 0 and Crop.SxBot >= 0 and InitCond.r_cor >= 0)",
          ],
          returns=[("TrAct", "Real"), ("TrPot_NS", "Real"), ("TrPot0", "Real"), ("NewCond", ("Param", "InitCond")), ("IrrNet", "Real")],
          ensures=[
@@ -540,6 +550,7 @@ contract(SOL + "transpiration.py", "transpiration",
              ("C13.transpiration_net_only_method4", "implies(IrrMngt_IrrMethod != 4, IrrNet == 0)"),
              ("C06.transpiration_net_cum", "NewCond.irr_net_cum == ite(growing_season and IrrMngt_IrrMethod == 4, old(InitCond.irr_net_cum) + IrrNet, 0)"),
              ("C06.transpiration_tpot_state", "NewCond.t_pot == TrPot0"),
+             ("C04.transpiration_aer_days", "implies(growing_season, 0 <= NewCond.aer_days and NewCond.aer_days <= Crop.LagAer and NewCond.day_submerged >= 0 and forall(j, 0, n, NewCond.aer_days_comp[j] >= 0))"),
              ("C12.transpiration_same_object", "same(NewCond, InitCond) and same(NewCond.th, old(InitCond.th))"),
          ],
          loops={
